@@ -38,6 +38,9 @@ CHECKS = {
     "C10": dict(text="one Short/Long item is constrained to be the help (version) flag, everything else symbolic; Z3 shows the class is Stdout and the (cut) help renderer receives the path/Info of the innermost entered subcommand",
                 note="bounds 1..3 argv words quick / ..4 thorough, 14 grammars; the ambiguity exception of run_inner is outside the token layer; one known finding (see known_findings.json)",
                 tech=MIRSYM + ", outcome-class obligations", ref="DESIGN.md 4/C10"),
+    "C15": dict(text="the single-quote wrapper `Shell` executed from MIR (core::fmt interpreted) on every valid UTF-8 string up to the bound: the output lexes under POSIX rules as exactly one word with the input as value; render_zsh/bash/fish/simple executed from MIR on candidate and completer lists whose user-originated strings are tracked atoms: no atom reaches a zsh/bash script unquoted, every line is a complete directive, every candidate / requested completer appears exactly once",
+                note="bounds: strings <=6 bytes quick / <=8 thorough; 0-2 candidates, 0-1 (thorough 0-2) completers; reference lexers in props/C15.py; sourcing in a real shell not attempted; three defects found and fixed (7d9d288, 7f18a65, 640d5de)",
+                tech=MIRSYM + " over symbolic bytes / tracked atoms", ref="DESIGN.md 4/C15"),
     "C18": dict(text="std::env::var_os replaced by symbolic functions; differential against the reference semantics (line, then variable, then default/failure) for every argv shape and every environment state; reading an undeclared variable is a violation",
                 note="bounds <=2 argv words quick / <=3 thorough on the env-backed grammar; one known finding (see known_findings.json)",
                 tech=MIRSYM + ", differential oracle with symbolic environment", ref="DESIGN.md 4/C18"),
